@@ -114,7 +114,7 @@ Definition build (p : prog) (cs : list name) : res graph :=
 (* ---- printing ---- *)
 Definition exn_sx (e : exn) : sx :=
   SZ (match e with TypeError => 1 | ValueError => 2 | IndexError => 3 | AttributeError => 4
-               | MissingContainedTypeOfContainer => 5 | NameError => 6 end)%Z.
+               | MissingContainedTypeOfContainer => 5 | NameError => 6 | StopIteration => 7 end)%Z.
 Definition build_sx (p : prog) (cs : list name) : sx :=
   match build p cs with Ok g => SL [SZ 0%Z; graph_sx g] | Raise e => SL [SZ 1%Z; exn_sx e] end.
 (* every translated predicate on one (declared) annotation *)
